@@ -176,6 +176,7 @@ func mutexKind(t types.Type) string {
 var fsFuncs = map[string]bool{
 	"ReadFile": true, "Open": true, "OpenFile": true, "Create": true, "WriteFile": true, "CreateTemp": true,
 	"Stat": true, "Lstat": true, "Chmod": true, "Rename": true, "Remove": true, "MkdirAll": true, "Readlink": true, "Symlink": true,
+	"SameFile": true,
 }
 
 // os functions that touch the file system or process state and that the
@@ -183,7 +184,7 @@ var fsFuncs = map[string]bool{
 var osUnsupported = map[string]bool{
 	"Mkdir": true, "ReadDir": true, "Link": true, "Truncate": true, "RemoveAll": true,
 	"Chown": true, "Chtimes": true, "DirFS": true, "MkdirTemp": true, "NewFile": true,
-	"Chdir": true, "Pipe": true, "StartProcess": true, "Lchown": true, "SameFile": true, "CopyFS": true,
+	"Chdir": true, "Pipe": true, "StartProcess": true, "Lchown": true, "CopyFS": true,
 }
 
 func (r *rewriter) run() bool {
